@@ -14,9 +14,10 @@
    NOT covered by a theorem: the cubic lookup (a coarse search over the sampling table; within 2% of the length) --
    hand model through the C16 sampler + search only; floating-point tolerances (1e-9 lines, 1e-6 quadratics). *)
 
+From Flocq Require Import Core.   (* bpow, radix2 for the float statements; imported first so that [float] below is PrimFloat.float *)
 From Coq Require Import PrimFloat.
 From Coq Require Import ZArith List Bool Reals Lra Permutation.
-From BZ Require Import Base.Ops Gen.Utils Gen.Point Gen.Line Gen.Quad Proofs.C15.
+From BZ Require Import Base.Ops Gen.Utils Gen.Point Gen.Line Gen.Quad Proofs.C15 Proofs.C15float Base.FloatErr Proofs.C01float.
 Import ListNotations.
 Open Scope R_scope.
 
@@ -65,6 +66,24 @@ Proof. exact quad_tOfPoint_near_linear_inexact. Qed.
 Theorem C15_line_end_rounding_float_refuted :
   let l := line_end_rounding_witness in PrimFloat.ltb (Line_tOfPoint FOps l (Line_pointAtTime FOps l 0x1.19799812dea11p-40%float) false) 0%float = true.
 Proof. exact line_end_rounding_float_refuted. Qed.
+Theorem C15_line_tOfPoint_float_close :
+  forall M (l : seg2 float) (t : float), 1 <= M -> M <= M25 -> seg2_ok M l -> t_ok t -> / 2 <= extent l -> let q := Line_pointAtTime FOps l t in let tau := Line_tOfPoint FOps l q false in tau = Line_tOfPoint FOps l q true /\ line_recheck FOps l q tau = true /\ solved_in l q tau /\ ffinite tau /\ Rabs (FR tau - FR t) <= 14 * u * (M / extent l) /\ pt_near (Line_pointAtTime FOps l tau) q (30 * u * M).
+Proof. exact line_tOfPoint_float_close. Qed.
+Theorem C15_line_tOfPoint_sworn_float_close :
+  forall M (l : seg2 float) (t : float), 1 <= M -> M <= M26 -> seg2_ok M l -> t_ok t -> / 2 <= extent l -> let q := Line_pointAtTime FOps l t in let tau := Line_tOfPoint FOps l q true in solved_in l q tau /\ ffinite tau /\ Rabs (FR tau - FR t) <= 14 * u * (M / extent l) /\ pt_near (Line_pointAtTime FOps l tau) q (30 * u * M).
+Proof. exact line_tOfPoint_sworn_float_close. Qed.
+Theorem C15_line_tOfPoint_float_range :
+  forall M (l : seg2 float) (t : float), 1 <= M -> M <= M25 -> seg2_ok M l -> t_ok t -> / 2 <= extent l -> let tau := Line_tOfPoint FOps l (Line_pointAtTime FOps l t) false in - bpow radix2 (-23) <= FR tau <= 1 + bpow radix2 (-23) /\ FR tau <> -1.
+Proof. exact line_tOfPoint_float_range. Qed.
+Theorem C15_line_tOfPoint_float_1e9 :
+  forall M (l : seg2 float) (t : float), 1 <= M -> M <= M25 -> seg2_ok M l -> t_ok t -> / 2 <= extent l -> let q := Line_pointAtTime FOps l t in pt_near (Line_pointAtTime FOps l (Line_tOfPoint FOps l q false)) q (1e-9 * M).
+Proof. exact line_tOfPoint_float_1e9. Qed.
+Theorem C15_line_tOfPoint_example :
+  let q := Line_pointAtTime FOps ex_line ex_t3 in let tau := Line_tOfPoint FOps ex_line q false in tau = Line_tOfPoint FOps ex_line q true /\ line_recheck FOps ex_line q tau = true /\ solved_in ex_line q tau /\ ffinite tau /\ Rabs (FR tau - FR ex_t3) <= 14 * u * (5 / 4) /\ pt_near (Line_pointAtTime FOps ex_line tau) q (30 * u * 5).
+Proof. exact line_tOfPoint_example. Qed.
+Theorem C15_line_tOfPoint_float_leaves_unit_interval :
+  let q := Line_pointAtTime FOps w_line w_t in let tau := Line_tOfPoint FOps w_line q false in (ffinite tau /\ Rabs (FR tau - FR w_t) <= 14 * u * (M25 / extent w_line) /\ pt_near (Line_pointAtTime FOps w_line tau) q (30 * u * M25)) /\ FR tau < 0.
+Proof. exact line_tOfPoint_float_leaves_unit_interval. Qed.
 
 Print Assumptions C15_line_tOfPoint_inverse.
 Print Assumptions C15_line_tOfPoint_degenerate.
@@ -81,3 +100,9 @@ Print Assumptions C15_quad_inverse_example.
 Print Assumptions C15_quad_tOfPoint_apex_not_found.
 Print Assumptions C15_quad_tOfPoint_near_linear_inexact.
 Print Assumptions C15_line_end_rounding_float_refuted.
+Print Assumptions C15_line_tOfPoint_float_close.
+Print Assumptions C15_line_tOfPoint_sworn_float_close.
+Print Assumptions C15_line_tOfPoint_float_range.
+Print Assumptions C15_line_tOfPoint_float_1e9.
+Print Assumptions C15_line_tOfPoint_example.
+Print Assumptions C15_line_tOfPoint_float_leaves_unit_interval.
